@@ -217,6 +217,7 @@ Theorem C14_update_consistent : forall D h_p2wsh h_p2sh tap_output cb_commits
   desc_wf h_p2wsh h_p2sh tap_output cb_commits di ->
   exists spk a',
     expected_spk a (d_segwit di) = Some spk /\ spk = d_spk di /\
+    utxo_tied a (d_segwit di) spk /\   (* witness_utxo = the WHOLE referenced TxOut when both fields are present *)
     nth_error (p_inputs st') i = Some a' /\ a' = apply_update a di /\
     (forall j, j <> i -> nth_error (p_inputs st') j = nth_error (p_inputs st) j) /\
     i_fsig a' = i_fsig a /\ i_fwit a' = i_fwit a /\
